@@ -27,8 +27,13 @@ RULE = ('histories: action kind (snapshot / log / metric / span and combinations
         'tracepoints on ONE line (merged into one trigger as convert_response does, or installed as separate triggers), '
         'each with its own condition function, limits and action kind, judged per tracepoint; conc: two threads at one '
         'log (or snapshot+log) tracepoint, each in its own frame (own locals, own module globals), each parked inside a '
-        '`pause()` field of the message, all 6 interleavings forced — every field must be evaluated in the frame of its '
-        'own hit; conc-inner: the same with the thread parked PART-WAY through ONE expression (`pause() and <names>`, '
+        '`pause()` field of the message — every field must be evaluated in the frame of its '
+        'own hit. What is forced: every pause() of a hit parks its thread until the driver releases it; the case\'s '
+        'schedule (one of the 6 orders of two steps per thread) says which thread runs to its next pause / its end at '
+        'each of the first four steps, after that thread 0 is run to its end, then thread 1 (further pauses of a hit '
+        'are stepped through one by one, not interleaved further). The model side of conc cases (driver op concN) is an '
+        'ECHO: it is fed the same reference evaluation of each frame as the oracle and shares no state between hits by '
+        'construction — the oracle is the judge of these streams; conc-inner: the same with the thread parked PART-WAY through ONE expression (`pause() and <names>`, '
         '`(pause(), <names>)[1]`) — a field / LOG watch or the CONDITION of the tracepoint (true in one thread\'s frame, '
         'false or failing in the other\'s): the names read after the pause must still be those of the own frame, a hit '
         'whose condition is false in its own frame produces nothing; threads (every 17th case): a history with a finite '
@@ -708,7 +713,7 @@ def run_conc(case):
             t.thread.join(30)
         out = []
         for t in thrs:
-            ent = {'messages': [c[0] for c, w in zip(logger.logged, logger.who) if w is t.thread]}
+            ent = {'messages': [c[0] for c, w in zip(logger.logged, logger.who) if w is t.thread], 'pauses': t.pauses}
             if t.error:
                 ent['raised'] = t.error
             snaps = [sn for sn, w in zip(rig.push.pushed, owners) if w is t.thread]
@@ -1160,8 +1165,9 @@ def compare(case, obs, resp):
 
 def label(case, obs):
     if case['kind'] == 'conc':
-        return 'conc%s/%s/%s' % ('-inner' if case.get('stream') == 'inner' else '', case['mode'],
-                                 ''.join(map(str, case['sched'])))
+        return 'conc%s/%s/%s/parks%d' % ('-inner' if case.get('stream') == 'inner' else '', case['mode'],
+                                          ''.join(map(str, case['sched'])),
+                                          min(sum(t.get('pauses', 0) for t in obs.get('threads', [])), 6))
     if case['kind'] == 'multi':
         return f"multi/{case['install']}/{len(case['tps'])}"
     if case['kind'] == 'history':
